@@ -390,30 +390,71 @@ def run_c19_builders(rep, tier, seed):
                                     viol("array-later-update-mutates-earlier-problem", "a second update changed a previously produced problem", dict(cur=snap, update=u, **opts))
                                     cur = copy.deepcopy(snap)
                             rep.case(("array", json.dumps(opts), json.dumps(snap)), sample=dict(opts=opts, cur=snap, updates=len(cands)) if rnd.random() < 0.001 else None)
-    # nested patterns: with_update touches exactly the addressed builder
-    pat = [B.Choice([0, 1, 2], 0), (B.Choice(["x", "y"], "x"), 7, B.ArrayBuilder2D(1, 2, [0, 1], 0)), [B.Choice([3, 4], 3)]]
-    initial, gen = B.build_neighbor_generator(pat)
-    srandom.use_deterministic_prng(True, seed)
-    try:
-        seen = [initial]
-        cur = initial
-        for step in range(30 if tier == "quick" else 200):
-            snaps = copy.deepcopy(seen)
-            nbrs = list(gen(cur))
-            if seen != snaps:
-                viol("nested-mutates-previous", "a previously produced problem was mutated", dict(step=step))
-                break
-            for nb in nbrs:
-                diff = _diff_positions(cur, nb)
-                if len(diff) != 1:
-                    viol("nested-update-not-local", "a neighbour differs from the current problem at %d builder positions" % len(diff), dict(cur=cur, neighbour=nb))
-                rep.case(("nested", json.dumps(cur, default=str), json.dumps(nb, default=str)))
-            if not nbrs:
-                break
-            cur = rnd.choice(nbrs)
-            seen.append(cur)
-    finally:
-        srandom.use_deterministic_prng(False)
+    # nested patterns: with_update touches exactly the addressed builder -- also when ONE builder object sits at several
+    # positions of the pattern (each position is a variable of its own)
+    c3 = B.Choice([0, 1, 2], 0)
+    shared_ab = B.ArrayBuilder2D(2, 2, [0, 1], 0, disallow_adjacent=True)
+    patterns = [
+        ("distinct", [B.Choice([0, 1, 2], 0), (B.Choice(["x", "y"], "x"), 7, B.ArrayBuilder2D(1, 2, [0, 1], 0)), [B.Choice([3, 4], 3)]]),
+        ("same-choice-twice", [c3, c3]),
+        ("same-choice-list*3", [B.Choice([5, 6], 5)] * 3),
+        ("same-array-builder-at-two-depths", (shared_ab, [shared_ab, c3], "fixed")),
+    ]
+    for pname, pat in patterns:
+        initial, gen = B.build_neighbor_generator(pat)
+        srandom.use_deterministic_prng(True, seed)
+        try:
+            seen = [initial]
+            cur = initial
+            for step in range(30 if tier == "quick" else 200):
+                snaps = copy.deepcopy(seen)
+                nbrs = list(gen(cur))
+                if seen != snaps:
+                    viol("nested-mutates-previous:" + pname, "a previously produced problem was mutated", dict(step=step, pattern=pname))
+                    break
+                for nb in nbrs:
+                    diff = _builder_diffs(pat, cur, nb)
+                    if diff is None or len(diff) != 1:
+                        viol("nested-update-not-local:" + pname, "a neighbour differs from the current problem at %s builder positions (pattern %s)"
+                             % ("other than" if diff is None else len(diff), pname), dict(cur=cur, neighbour=nb, pattern=pname))
+                        continue
+                    pos, bld, before, after = diff[0]
+                    allowed = [bld.copy_with_update(before, u) for u in bld.candidates(before)] if not isinstance(bld, B.ArrayBuilder2D) else None
+                    if allowed is not None and after not in allowed:
+                        viol("nested-update-not-a-candidate:" + pname, "position %s changed to a value that is no candidate of its builder" % (pos,),
+                             dict(cur=cur, neighbour=nb, pattern=pname))
+                    if isinstance(bld, B.ArrayBuilder2D):
+                        hh, ww = len(after), len(after[0])
+                        offs = list(getattr(bld, "disallow_adjacent", []) or [])
+                        if any(v not in bld.choice for r in after for v in r) or (offs and not _adjacent_free(hh, ww, after, bld.default, offs)):
+                            viol("nested-array-update-breaks-adjacency:" + pname, "position %s: the updated board has two adjacent non-default cells or a foreign value" % (pos,),
+                                 dict(cur=cur, neighbour=nb, pattern=pname))
+                    rep.case(("nested", pname, json.dumps(cur, default=str), json.dumps(nb, default=str)))
+                if not nbrs:
+                    break
+                cur = rnd.choice(nbrs)
+                seen.append(cur)
+        finally:
+            srandom.use_deterministic_prng(False)
+
+
+def _builder_diffs(pat, a, b, pos=()):
+    """positions of the pattern's builders at which the problems a and b differ: [(pos, builder, sub_a, sub_b)], or None when
+    they differ outside the builder positions / in shape"""
+    from cspuz.generator import builder as B
+    if isinstance(pat, B.Builder):
+        return [] if a == b else [(pos, pat, a, b)]
+    if isinstance(pat, (list, tuple)):
+        if type(a) is not type(pat) or type(b) is not type(pat) or len(a) != len(pat) or len(b) != len(pat):
+            return None
+        out = []
+        for i in range(len(pat)):
+            d = _builder_diffs(pat[i], a[i], b[i], pos + (i,))
+            if d is None:
+                return None
+            out += d
+        return out
+    return [] if (a == pat and b == pat) else None
 
 
 def _diff_positions(a, b, pos=()):
